@@ -119,6 +119,9 @@ def gen_step(rng):
     if api == 'add_source':
         return A(gen_src(rng), rng.choice([None, None, None, False, True]), rng.choice(FNAMES), rng.choice([None, None, True, False]))
     if api == 'cmdline':
+        if rng.random() < 0.3:
+            return {'api': 'cmdline', 'options': [rng.choice(['g.yaml', 'g.yaml', ' g.yaml ', 'nofile.yaml', '{a: 1}', 'a=1', KEEP]) for _ in range(rng.choice([1, 1, 2, 3]))],
+                    'lookup': rng.choice(['sub/', 'sub/', './sub/', '$ROOT/sub/'])}
         return {'api': 'cmdline', 'options': [rng.choice(OPTIONS) for _ in range(rng.choice([0, 1, 1, 2, 3]))]}
     n = rng.choice([0, 1, 2, 2, 3])
     ss = [gen_src(rng) for _ in range(n)]
@@ -160,6 +163,7 @@ def corpus():
     out.append(base_case([{'api': 'config_build', 'sources': srcs(['f0.yaml', '~/h.yaml', 'x: 1', ['path', 'sub/g.yaml']]), 'raw': SC(None), 'filename': SC(None)},
                           {'api': 'config_build', 'sources': srcs(['f0.yaml', 'x: 1']), 'raw': SQ([False, True]), 'filename': SQ(['m', None])},
                           {'api': 'config_build', 'sources': srcs(['f0.yaml']), 'raw': SC(None), 'filename': SQ([])}]))
+    out.append(base_case([{'api': 'cmdline', 'options': ['g.yaml', '{a: 1}'], 'lookup': 'sub/'}, {'api': 'cmdline', 'options': [' g.yaml ', 'nofile.yaml'], 'lookup': '$ROOT/sub/'}]))
     out.append(base_case([{'api': 'cmdline', 'options': [' f0.yaml ', '{a: 1} ', 'a.b=2', KEEP]}, {'api': 'cmdline', 'options': ['nofile.yaml']},
                           {'api': 'cmdline', 'options': ['{x: 1}', 'k=v', 'a: b']}, {'api': 'cmdline', 'options': ['f0.yaml', '=5']}, {'api': 'cmdline', 'options': []}]))
     out.append(base_case([{'api': 'ways', 'sources': srcs(['f0.yaml', 'f1.yaml', KEEP, 'ws.yaml ']), 'raw': None, 'filename': None},
@@ -442,7 +446,18 @@ def run_sources(case):
                 state['delegate'] = False
                 del created[:]
                 opts = [_sub(x, real) for x in step['options']]
-                res = call(lambda: Config.build_from_cmdline(*opts), api)
+                lk = _sub(step['lookup'], real) if step.get('lookup') else None
+                if lk:
+                    # a file-name lookup function (names are mapped into a directory): the same as giving the mapped names - what is
+                    # opened AND what is recorded as the file (seeded change S9-C06: the name as typed was recorded)
+                    look = lambda n: lk + n
+                    res = call(lambda: Config.build_from_cmdline(*opts, filename_lookup_fn=look), api)
+                    def _is_file_opt(x):
+                        t = x.strip()
+                        return not ('\n' in t or (t.startswith('{') and t.endswith('}'))) and '=' not in t
+                    opts = [(lk + x.strip()) if _is_file_opt(x) else x for x in opts]
+                else:
+                    res = call(lambda: Config.build_from_cmdline(*opts), api)
                 o = snapshot(res, created[0] if created else None, api)
                 steps_obs.append(o)
                 msteps.append({'api': 'cmdline', 'options': opts})
